@@ -42,6 +42,9 @@ def constructs():
         ("lit-guid", ("lit", "guid", "123e4567-e89b-12d3-a456-426614174000"), "Guid"),
         ("lit-date", ("lit", "date", "2020-01-01"), "Date"), ("lit-time", ("lit", "time", "12:30:00"), "Time"),
         ("lit-datetime", ("lit", "datetime", "2020-01-01T10:00:00Z"), "DateTime"),
+        ("lit-datetime-fraction", ("lit", "datetime", "2020-01-01T10:00:00.123456Z"), "DateTime"),
+        ("lit-datetime-fraction-offset", ("lit", "datetime", "2020-01-01T10:00:00.5-05:30"), "DateTime"),
+        ("lit-datetime-no-seconds", ("lit", "datetime", "2020-01-01T10:00+01:00"), "DateTime"),
         ("lit-duration", ("lit", "duration", "P1DT2H"), "Duration"),
         ("lit-duration-zero", ("lit", "duration", "PT0S"), "Duration"),
         ("lit-duration-zero-days", ("lit", "duration", "-P0DT0H"), "Duration"),
@@ -64,6 +67,7 @@ def constructs():
         ("indexof", (S1, ("lit", "str", "z")), "Int"), ("indexof-list", (LINT, LINT), "Int"),
         ("length", (S1,), "Int"), ("length-list", (LINT,), "Int"),
         ("substring", (S1, ("lit", "int", "1")), "Str"), ("substring3", (S1, ("lit", "int", "1"), ("lit", "int", "2")), "Str"),
+        ("substring3-zero", (S1, ("lit", "int", "0"), ("lit", "int", "0")), "Str"),
         ("substring-list", (LINT, ("lit", "int", "1")), "ListInt"),
         ("hassubset", (LINT, LINT), "Bool"), ("hassubsequence", (LSTR, LSTR), "Bool"),
         ("matchesPattern", (S1, ("lit", "str", "^a")), "Bool"),
@@ -76,7 +80,7 @@ def constructs():
         ("ceiling", (R1,), "Real"), ("floor", (R1,), "Real"), ("round", (R1,), "Real"),
     ]
     for name, args, ty in fn:
-        out.append(("fn-" + name, ("call", re.sub(r"(-list|3)$", "", name), (), tuple(args)), ty))
+        out.append(("fn-" + name, ("call", re.sub(r"(-list|3|3-zero)$", "", name), (), tuple(args)), ty))
     out.append(("fn-geo.distance", ("call", "distance", ("geo",), (ident("loc"), GEO)), "Real"))
     out.append(("fn-geo.intersects", ("call", "intersects", ("geo",), (ident("loc"), GEO)), "Bool"))
     out.append(("fn-geo.length", ("call", "length", ("geo",), (ident("loc"),)), "Real"))
@@ -170,7 +174,7 @@ def text_leaves(t):
         elif x[0] == "lit" and x[1] in ("date", "time", "guid"):
             out.append(("str", x[2]))
         elif x[0] == "lit" and x[1] == "datetime":
-            out.append(("str", x[2][:10]))
+            out.append(("dt", x[2]))
     return out
 
 
@@ -226,7 +230,8 @@ def classify_text(dname, cls, t, a):
         if kind == "field" and val not in fields_in_expr_position(t):
             continue
         ok = (kind == "field" and (val in qids or val.lower() in qids)) or (kind == "num" and val in nums) or \
-             (kind == "str" and any(val.replace("\\", "") in s or val.replace("T", " ") in s for s in strs))
+             (kind == "str" and any(val.replace("\\", "") in s or val.replace("T", " ") in s for s in strs)) or \
+             (kind == "dt" and any(c09.norm_dt(val) in c09.norm_dt(s) for s in strs))
         if not ok:
             return ("VIOLATION", "part-missing-from-output", "%s %r not in %s" % (kind, val, sql))
     return ("complete", sql)
@@ -310,7 +315,7 @@ def _orm_complete(t, sql, params):
             if not any(_numeq(p, val) for p in params) and not re.search(r"(?<![\d.])%s(?![\d.])" % re.escape(_numtxt(val)), sql):
                 return "number %r neither in parameters %r nor in %s" % (val, ptxt, sql)
         else:
-            v = val
+            v = val[:10] if kind == "dt" else val
             if not any(v in p or v.replace("-", "") in p.replace("-", "") for p in ptxt) and v not in sql:
                 return "value %r neither in parameters %r nor in %s" % (val, ptxt, sql)
     return None
